@@ -19,6 +19,8 @@ type recWritePool struct {
 	mu     sync.Mutex
 	Got    map[int64][]byte
 	Closed map[int64]int
+	// FailClose: closing a writer of the inner pool reports an error (the data it was given stays)
+	FailClose bool
 }
 
 type recWriter struct {
@@ -36,7 +38,11 @@ func (w *recWriter) Write(b []byte) (int, error) {
 func (w *recWriter) Close() error {
 	w.p.mu.Lock()
 	w.p.Closed[w.idx]++
+	fail := w.p.FailClose
 	w.p.mu.Unlock()
+	if fail {
+		return ErrInjected
+	}
 	return nil
 }
 
@@ -220,13 +226,34 @@ func TestC18(t *testing.T) {
 					inner.Got[a] = nil
 				}
 			}
+			skipA := 0
 			wa, ea := vp.GetWriter(a)
+			if nfiles >= 3 && ea == nil && rapid.Bool().Draw(rt, "thirdwriter") {
+				// while the first writer is open (holding part of a block), another one comes and goes
+				// before the second one is opened
+				c := int64(2)
+				dc := tree[si.Container.Files[c].Path].Data
+				wa.Write(da[:min(len(da), 1000)])
+				wc, ec := vp.GetWriter(c)
+				if ec != nil {
+					Violation(rt, "C18/getwriter", "GetWriter: %v", ec)
+					return
+				}
+				_, e1 := wc.Write(dc)
+				e2 := wc.Close()
+				if e1 != nil || e2 != nil || !bytes.Equal(inner.Got[c], dc) {
+					Violation(rt, "C18/concurrent-writers", "a writer opened and closed while another one was open: signed content of file %d rejected or altered (write %v, close %v, %d/%d bytes)", c, e1, e2, len(inner.Got[c]), len(dc))
+					return
+				}
+				skipA = min(len(da), 1000)
+				Ev.Probe("writer_opened_and_closed_while_another_is_open")
+			}
 			wb, eb := vp.GetWriter(b)
 			if ea != nil || eb != nil {
 				Violation(rt, "C18/getwriter", "GetWriter: %v %v", ea, eb)
 				return
 			}
-			oa, ob := 0, 0
+			oa, ob := skipA, 0
 			step := func(w io.Writer, d []byte, o *int) error {
 				if *o >= len(d) {
 					return nil
@@ -385,6 +412,10 @@ func TestC18(t *testing.T) {
 			Ev.ProbeIf(failErr == nil && cerr != nil, "error_from_close")
 		} else {
 			// wound mode, scheduled
+			if rapid.IntRange(0, 4).Draw(rt, "innerclosefails") == 0 {
+				inner.FailClose = true
+				Ev.Fault("inner_pool_close_error", 1)
+			}
 			var entries []*pwr.Wound
 			var werr, cerr error
 			s := &Sched{Spec: spec, MaxSteps: 200000}
@@ -395,17 +426,32 @@ func TestC18(t *testing.T) {
 					vp.WoundsFilter = func(w chan *pwr.Wound) chan *pwr.Wound { return pwr.AggregateWounds(w, 4*MiB) }
 				}
 				doneC := make(chan struct{})
+				stop := make(chan struct{})
 				go func() {
 					defer close(doneC)
-					for w := range ch {
-						s.Yield("woundconsumer")
-						entries = append(entries, w)
+					for {
+						select {
+						case w := <-ch:
+							s.Yield("woundconsumer")
+							entries = append(entries, w)
+						case <-stop:
+							// the writer is closed: whatever was going to be said about the file has been
+							// said (a sender that turns up later than this finds nobody)
+							for {
+								select {
+								case w := <-ch:
+									entries = append(entries, w)
+								default:
+									return
+								}
+							}
+						}
 					}
 				}()
 				w, err := vp.GetWriter(fi)
 				if err != nil {
 					werr = err
-					close(ch)
+					close(stop)
 					<-doneC
 					return
 				}
@@ -425,7 +471,7 @@ func TestC18(t *testing.T) {
 					off += n
 				}
 				cerr = w.Close()
-				close(ch)
+				close(stop)
 				<-doneC
 			})
 			if s.BudgetExceeded {
@@ -434,6 +480,15 @@ func TestC18(t *testing.T) {
 			if s.Stuck || s.Panic != "" {
 				Violation(rt, "C18/wound-mode-stuck", "wound mode: stuck=%v panic=%s (%s)\n%s", s.Stuck, s.Panic, setup, s.StuckStacks)
 				return
+			}
+			if inner.FailClose && werr == nil {
+				// the error of the inner pool is the caller's to see; what was emitted for the file is
+				// judged as always
+				if cerr == nil {
+					Violation(rt, "C18/inner-close-error-lost", "wound mode: the inner pool's writer failed to close, Close of the validating writer returned nil (%s)", setup)
+					return
+				}
+				cerr = nil
 			}
 			if werr != nil || cerr != nil {
 				Violation(rt, "C18/wound-mode-error", "wound mode returned errors: write %v close %v (%s)", werr, cerr, setup)
